@@ -1,6 +1,7 @@
 package interpreter
 
 import (
+	"math/big"
 	"slices"
 
 	"github.com/formancehq/numscript/internal/parser"
@@ -91,7 +92,20 @@ func (st *programState) runBalancesQuery() error {
 	// reset batch query
 	st.CurrentBalanceQuery = BalanceQuery{}
 
-	st.CachedBalances = balances
+	// Merge the answer into the cache instead of replacing it: balances learned from
+	// previous queries must not be forgotten. The amounts are copied, so that the maps
+	// owned by the store are never modified when postings are applied to the cache.
+	for accountName, accountBalances := range balances {
+		cachedAccountBalances := defaultMapGet(st.CachedBalances, accountName, func() AccountBalance {
+			return AccountBalance{}
+		})
+		for currency, amount := range accountBalances {
+			if _, isCached := cachedAccountBalances[currency]; isCached || amount == nil {
+				continue
+			}
+			cachedAccountBalances[currency] = new(big.Int).Set(amount)
+		}
+	}
 	return nil
 }
 
